@@ -48,7 +48,7 @@ pub enum Fail {
     From(usize),
 }
 
-#[derive(Debug, Clone, Copy, PartialEq, Eq)]
+#[derive(Debug, Clone, Copy, PartialEq, Eq, Hash)]
 pub struct SinkErr;
 
 impl embedded_io::Error for SinkErr {
@@ -64,6 +64,12 @@ pub struct Sink {
     pub short: bool,
     pub calls: usize,
     pub fail: Fail,
+}
+
+/// The sink is the environment, not library state: it contributes nothing to `Cli::__verif_struct_hash`
+/// (which hashes every field of the real `Cli`, the writer included).
+impl std::hash::Hash for Sink {
+    fn hash<H: std::hash::Hasher>(&self, _h: &mut H) {}
 }
 
 impl Sink {
